@@ -23,7 +23,15 @@ type verifBlockRWC struct {
 	readErr     error // what the failing Read reports (default verifErrRead)
 	writeGate   bool  // every Write waits until the harness opens the gate (a momentarily slow peer)
 	gateOpen    bool
+	gatedErr    error // what the first Write that waited at the gate reports once the gate opens (nil: it succeeds)
 }
+
+// a transport error of the "timeout" kind (net.Error with Timeout() true), as a write deadline produces
+type verifTimeoutErr struct{}
+
+func (verifTimeoutErr) Error() string   { return "verif: i/o timeout" }
+func (verifTimeoutErr) Timeout() bool   { return true }
+func (verifTimeoutErr) Temporary() bool { return true }
 
 func (t *verifBlockRWC) Read(p []byte) (int, error) {
 	if len(t.data) > 0 {
@@ -51,6 +59,11 @@ func (t *verifBlockRWC) Write(p []byte) (int, error) {
 		t.inWrite++
 		verifBlockUntil(&t.gateOpen)
 		t.inWrite--
+		if t.gatedErr != nil {
+			e := t.gatedErr
+			t.gatedErr = nil
+			return 0, e
+		}
 	}
 	return t.VerifRecWriter.Write(p)
 }
@@ -102,6 +115,43 @@ func verifStartedChannelRWC(n *Node, t io.ReadWriteCloser) *Channel {
 func verifOutsideFrame(seq byte) frame.Frame {
 	return &frame.V2Frame{SequenceNumber: seq, SystemID: 8, ComponentID: 7, Checksum: 0x1234,
 		Message: &message.MessageRaw{ID: 9999, Payload: []byte{1, 2, 3}}}
+}
+
+// L1b (C13, second sentence, with the first): the transport stalls inside a Write, the backlog fills up completely
+// (64 queued, more discarded), then the stalled Write fails - with a generic error (kind 0) or with a timeout-type
+// net.Error (kind 1). Afterwards the channel is closed and reported, or it still delivers; it does not stay open
+// and mute. One schedule.
+func verifHarness_C13_failed_write_full_backlog(kind int) {
+	n := verifBareNode(V2, 1, 1)
+	t := &verifBlockRWC{writeGate: true, gatedErr: verifErrRead}
+	if kind == 1 {
+		t.gatedErr = verifTimeoutErr{}
+	}
+	ch := verifStartedChannel(n, t)
+	verifRunGoroutines(func() { ch.run() })
+	opens, closes, _, _, _ := verifDrainEvents(n)
+	verifAssert(opens == 1 && closes == 0, "C13/L1b/open-event-first")
+	for i := 0; i < 67; i++ {
+		ch.write(&message.MessageRaw{ID: 202, Payload: []byte{byte(i), 1, 1, 1, 1}})
+		if i == 0 {
+			verifRunGoroutines(nil) // the writer takes the first item and stalls inside the transport
+		}
+	}
+	verifAssert(t.inWrite == 1 && len(ch.chWrite) == 64, "C13/L1b/writer-stalled-backlog-full")
+	t.gateOpen = true // the stalled call returns its error
+	verifRunGoroutines(nil)
+	_, closes, _, _, _ = verifDrainEvents(n)
+	before := len(t.Buf())
+	for i := 0; i < 3; i++ {
+		ch.write(&message.MessageRaw{ID: 202, Payload: []byte{9, 9, 9, 9, byte(i)}})
+		verifRunGoroutines(nil)
+	}
+	_, closes2, _, _, _ := verifDrainEvents(n)
+	closes += closes2
+	delivered := len(t.Buf()) > before
+	verifAssert(closes <= 1, "C13/L1b/at-most-one-close-event")
+	verifAssert(closes == 1 || delivered, "C13/L1b/after-a-failed-write-with-a-full-backlog-closed-and-reported-or-still-delivering")
+	verifReach("C13/L1b")
 }
 
 // L1 (C13, second sentence): a write on a channel fails (transport error at the first Write, or an item that cannot be
@@ -518,6 +568,42 @@ func verifHarness_C11_node_forward_frames() {
 		returned := false
 		verifRunGoroutines(func() { n.WriteFrameAll(fr); returned = true }) //nolint:errcheck
 		verifAssert(returned, "C11/NF/write-returns")
+	}
+	{
+		// a fourth frame as a dialect-aware router forwards it: decoded message, signed, every header field and the
+		// whole signature block arbitrary - all of them are the frame's own and go out unchanged
+		compat, seq, sys, comp, link := verifNondetU8(), verifNondetU8(), verifNondetU8(), verifNondetU8(), verifNondetU8()
+		ck := verifNondetU16()
+		ts := verifNondetU64()
+		verifAssume(ts < 1<<48)
+		v := verifNondetU8()
+		verifAssume(v != 0)
+		sig := new(frame.V2Signature)
+		sigb := verifNondetBytes(6)
+		copy(sig[:], sigb)
+		fr := &frame.V2Frame{IncompatibilityFlag: 1, CompatibilityFlag: compat, SequenceNumber: seq, SystemID: sys, ComponentID: comp,
+			Checksum: ck, SignatureLinkID: link, SignatureTimestamp: ts, Signature: sig, Message: &frame.MessageVerifMessageBox{V: v}}
+		want = append(want, frame.VerifSpecV2(1, compat, seq, sys, comp, 204, []byte{v}, ck, true, link, ts,
+			[]byte{sigb[0], sigb[1], sigb[2], sigb[3], sigb[4], sigb[5]})...)
+		returned := false
+		verifRunGoroutines(func() { n.WriteFrameAll(fr); returned = true }) //nolint:errcheck
+		verifAssert(returned, "C11/NF/write-returns")
+	}
+	{
+		// two originated messages submitted through the SAME struct, a field changed in between: each frame carries
+		// the value the struct had when it was submitted, with the link's identity and consecutive sequence numbers
+		v1, v2 := verifNondetU8(), verifNondetU8()
+		verifAssume(v1 != 0 && v2 != 0)
+		m := &frame.MessageVerifMessageBox{V: v1}
+		crc := n.dialectRW.GetMessage(204).CRCExtra()
+		for i, v := range []byte{v1, v2} {
+			m.V = v
+			ck := frame.VerifSpecChecksumV2(0, 0, byte(i), 1, 1, 204, []byte{v}, crc)
+			want = append(want, frame.VerifSpecV2(0, 0, byte(i), 1, 1, 204, []byte{v}, ck, false, 0, 0, nil)...)
+			returned := false
+			verifRunGoroutines(func() { n.WriteMessageAll(m); returned = true }) //nolint:errcheck
+			verifAssert(returned, "C11/NF/write-returns")
+		}
 	}
 	verifAssert(verifEqBytes(b.Buf(), want), "C11/NF/healthy-link-carries-every-frame-in-order")
 	a.gateOpen = true
